@@ -440,8 +440,9 @@ class MahalanobisMixin(BaseMetricLearner, MetricTransformer,
       distance : float
         The distance between u and v according to the new metric.
       """
-      u = validate_vector(u)
-      v = validate_vector(v)
+      # as floats: the difference of unsigned or narrow integer vectors wraps
+      u = validate_vector(u, dtype=float)
+      v = validate_vector(v, dtype=float)
       transformed_diff = (u - v).dot(components_T)
       dist = np.dot(transformed_diff, transformed_diff.T)
       if not squared:
